@@ -53,8 +53,8 @@ FlavBase(f) ==
     /\ base # {} => ErrorLike(f.outcome)
 
 Instrumented(u) == ~IsUndo(u) /\ ~IsGather(u)
-TbCids(d) == {c \in Range(d.cids) : \E i \in DOMAIN raised : c = "tb:" \o raised[i].unit \o ":" \o ToString(i)}
-SkipCids == {"skipreason:" \o raised[i].unit \o ":" \o ToString(i) : i \in {j \in DOMAIN raised : Map(raised[j].kind) = "skip"}}
+TbCids(d) == {c \in Range(d.cids) : \E i \in DOMAIN raised : c = "tb:" \o raised[i].unit \o ":" \o ToString(UIdx(raised, i))}
+SkipCids == {"skipreason:" \o raised[i].unit \o ":" \o ToString(UIdx(raised, i)) : i \in {j \in DOMAIN raised : Map(raised[j].kind) = "skip"}}
 
 Verdict ==
   [ c01_bracket |-> \A i \in DOMAIN Obs.flav : FlavBracket(Obs.flav[i]),
